@@ -416,3 +416,24 @@ Theorem C10_gen_verdict_example :
   (V.Corr.CheckTG.DFail (V.Corr.CheckTG.FMissing 7), false).
 Proof. exact V.Proofs.ExamplesMissingId.missing_ex_gen_verdict. Qed.
 Print Assumptions C10_gen_verdict_example.
+
+(** the round budget [descent_budget] always suffices (every round expands at least one new id,
+    all of them the root or referenced ids), so on the class the verdicts are DEFINITE: never
+    [DUnsure].  The path verdict together with the model's outcome: *)
+Theorem C10_path_verdict_definite :
+  forall r s rank m, V.Model.MissingId.generable_but r s rank m ->
+  forall id, in_reg r id \/ id = m ->
+    (V.Corr.CheckTG.path_verdict r s id = V.Corr.CheckTG.DClean /\
+     exists t, resolve_type_path r s id = Ok t) \/
+    (V.Corr.CheckTG.path_verdict r s id = V.Corr.CheckTG.DFail (V.Corr.CheckTG.FMissing m) /\
+     resolve_type_path r s id = Err (ETypeNotFound m)).
+Proof. exact V.Proofs.MissingIdVerdicts.path_verdict_definite. Qed.
+Print Assumptions C10_path_verdict_definite.
+
+Theorem C10_field_verdict_definite :
+  forall r s rank m, V.Model.MissingId.generable_but r s rank m ->
+  forall t f, in_reg r (f_ty f) \/ f_ty f = m ->
+    V.Corr.CheckTG.field_verdict r s t f = V.Corr.CheckTG.DClean \/
+    V.Corr.CheckTG.field_verdict r s t f = V.Corr.CheckTG.DFail (V.Corr.CheckTG.FMissing m).
+Proof. exact V.Proofs.MissingIdVerdicts.field_verdict_definite. Qed.
+Print Assumptions C10_field_verdict_definite.
